@@ -240,6 +240,8 @@ class AddressAg(AddressBase):
             raise ValueError(f"invalid address {line=} for platform={self._platform!r}")
         addrgroup = h.findall1("^group-object (.+)", line)
         h.check_name(addrgroup)
+        if addrgroup != self._addrgroup:
+            self._items = []  # members of another address group
         self._type = "addrgroup"
         self._addrgroup = addrgroup
         self._wildcard = None
